@@ -459,6 +459,50 @@ func c07(w *core.World, r *core.Report) {
 				}
 				r.Check(ok, "MEMO-SUCCESS-ONLY", core.Site(retrieve, "store ready"), w.InstrPos(st), "ready=true only for a successful GetSchema answer")
 			}
+			// the flag written by a setter of the entry that is not part of Retrieve (an exported-named method):
+			// the stored value is 'err == nil' of the parameter that Retrieve hands GetSchema's error to
+			for _, f := range w.RepoFns {
+				if f == retrieve || f.Blocks == nil || f.Parent() != nil || core.InBody(retrieve, f) || core.PkgPath(f) != core.PkgPath(retrieve) {
+					continue
+				}
+				for _, st := range core.StoresToField(f, "datastore/clients/schema.schemaIndexEntry.ready") {
+					if st.Parent() != f {
+						continue
+					}
+					stores = append(stores, st)
+					ok := false
+					if b, isConst := core.ConstBool(st.Val); isConst && !b {
+						ok = true
+					} else if x, nilOnTrue, isNil := core.NilTest(st.Val); isNil && nilOnTrue {
+						if p, isP := x.(*ssa.Parameter); isP && p.Parent() == f {
+							idx := -1
+							for i, q := range f.Params {
+								if q == p {
+									idx = i
+								}
+							}
+							nSites, good := 0, true
+							for _, c := range core.Calls(retrieve) {
+								if c.Common().StaticCallee() != f || idx < 0 || idx >= len(c.Common().Args) {
+									continue
+								}
+								nSites++
+								fromGet := false
+								for _, oc := range core.OriginCalls(c.Common().Args[idx]) {
+									if oc == g {
+										fromGet = true
+									}
+								}
+								if !fromGet {
+									good = false
+								}
+							}
+							ok = nSites > 0 && good
+						}
+					}
+					r.Check(ok, "MEMO-SUCCESS-ONLY", core.Site(f, "store ready"), w.InstrPos(st), "ready=true only for a successful GetSchema answer: the setter must store 'err == nil' of the error Retrieve got from GetSchema (an answer that is an error - unknown schema while the server reloads, Internal, ResourceExhausted - is not final)")
+				}
+			}
 			if len(stores) == 0 {
 				r.Info("MEMO-SUCCESS-ONLY", core.Site(retrieve, "store ready"), w.Pos(retrieve.Pos()), "no memoisation flag is written")
 			}
